@@ -243,16 +243,19 @@ impl GraphInline {
                 // brackets in the text (a title like "[WIP] Refactor") are escaped: bare, they
                 // would end the text early or turn "[[WIP]](key)" into a wiki link
                 let text = inlines_to_markdown(&escape_brackets(inlines), options);
+                // (what the link shows, as written in the source: an address shown as itself
+                // is compared and written without the escapes)
+                let shown = inlines_to_markdown(inlines, options);
                 if *link_type == LinkType::WikiLinkPiped {
                     return format!("[[{}|{}]]", url, text);
                 }
                 if *link_type == LinkType::WikiLink {
                     return format!("[[{}]]", url);
                 }
-                if !self.is_ref() && url.strip_prefix("mailto:") == Some(text.as_str()) {
+                if !self.is_ref() && url.strip_prefix("mailto:") == Some(shown.as_str()) {
                     // a mail address goes back between angle brackets
-                    format!("<{}>", text)
-                } else if !self.is_ref() && text == *url && model::has_scheme(url) {
+                    format!("<{}>", shown)
+                } else if !self.is_ref() && shown == *url && model::has_scheme(url) {
                     // (only an address with a scheme is a link between angle brackets)
                     format!("<{}>", url)
                 } else if self.is_ref() {
